@@ -191,3 +191,35 @@ pub(crate) fn c16_map_cache_hit() {
     map_cache_scenario(0, None);
     vcover!("c16_map_cache_hit_end");
 }
+
+// A store by another thread lands between the cache's check and its reload; later the value whose
+// address the check saw is stored again (same address: nothing pinned it). The cache must compare
+// against what it actually holds.
+// @harness name=c16_cache_store_during_reload props=C16 tier=quick flavour=nostd timeout=1800 fn=Cache::load+Cache::revalidate
+#[cfg_attr(kani, kani::proof)]
+#[cfg_attr(kani, kani::stub(crate::debt::Debt::pay_all, crate::debt::verif_h::pay_all_stub))]
+#[cfg_attr(kani, kani::stub(crate::debt::LocalNode::with, crate::debt::verif_h::list_h::with_static))]
+#[cfg_attr(kani, kani::stub(crate::debt::Node::get, crate::debt::verif_h::list_h::node_get_unexpected))]
+#[cfg_attr(kani, kani::unwind(12))]
+pub(crate) fn c16_cache_store_during_reload() {
+    crate::debt::verif_h::list_h::setup_thread_node();
+    hy::fresh_ledger();
+    let s: AS<DefaultConfig> = ArcSwapAny::with_strategy(TP::adopt(0), hy::strategy::<DefaultConfig>());
+    let mut cache = Cache::new(&s);
+    s.store(fresh_handle(1));
+    // during the observing load: the check reads o1, then another writer stores o2 before the reload
+    unsafe { api::SCRIPT = api::Script { at_access: [0; 6], at_cas: [0; 2], after_cas: [0; 2], at_load: [0, 3, 0, 0] } };
+    api::wenv_install(&s, 1);
+    let got = cache.load().0;
+    api::hooks_off();
+    vassert!(got == model::addr(2) || got == model::addr(1), "cache_load_returns_a_value_stored_during_the_call");
+    let c2 = model::cnt(2);
+    // o1 is stored again
+    s.store(fresh_handle(1));
+    let got2 = cache.load().0;
+    vassert!(got2 == model::addr(1), "cache_load_returns_the_current_value");
+    vassert!(model::cnt(2) == c2 - 1 - (got == model::addr(2)) as usize, "cache_releases_previous_value_on_the_observing_load");
+    mem::forget(cache);
+    mem::forget(s);
+    vcover!("c16_cache_store_during_reload_end");
+}
